@@ -136,7 +136,7 @@ class World:
                 h.update(('%s%s%s%d%d%d%d|' % (e['ep'], e['dir'][0], f.get('type'), f.get('sid', 0),
                                                  bool(f.get('follows')), bool(f.get('complete')),
                                                  bool(f.get('next')))).encode())
-            elif e['kind'] != 'queue':
+            elif e['kind'] not in ('queue', 'submit'):
                 h.update(('%s%s%s|' % (e['kind'], e.get('who', ''), e.get('iid', ''))).encode())
         return h.hexdigest()[:16]
 
